@@ -189,7 +189,8 @@ class Endpoint:
     Attributes: ``events`` ``[(time, event)]`` in pop order, ``sent`` /
     ``received`` ``[(time, bytes, addr)]``, ``api_log`` ``[ApiCall]``,
     ``raised`` ``[ApiCall]``, ``timer_at`` (value of the last ``get_timer``),
-    ``timer_fire_at`` (when the simulator will fire it, incl. slack).
+    ``timer_fire_at`` (when the simulator will fire it, incl. slack),
+    ``spins`` (number of busy-loop timer firings, see ``Pair(spin_quantum=)``).
     """
 
     def __init__(
@@ -215,6 +216,8 @@ class Endpoint:
         self.event_hooks: list[Callable[["Endpoint", qevents.QuicEvent], None]] = []
         self.timer_at: Optional[float] = None
         self.timer_fire_at: Optional[float] = None
+        self.spinning = False
+        self.spins = 0
         self.timer_fired: list[tuple[float, float]] = []  # (armed_for, fired_at)
         self.secrets_log: Optional[io.StringIO] = None
         self.quic_logger: Optional[QuicLogger] = None
@@ -807,6 +810,13 @@ class Pair:
     :param deterministic: install :mod:`sim.det` replacements around endpoint
         calls (default true).
     :param observe: attach a :class:`sim.wire.WireObserver` (``pair.observer``).
+    :param spin_quantum: aioquic can ask for a timer that is already due right
+        after a ``handle_timer`` that did nothing (e.g. an ACK is owed but the
+        anti-amplification limit forbids sending).  A real event loop then spins.
+        The simulator records the episode in ``pair.anomalies`` /
+        ``endpoint.spins`` and re-fires the timer every ``spin_quantum`` virtual
+        seconds so that other events can end it.  ``None``: do not creep, raise
+        :class:`SimStall` after 200 fruitless firings at one instant.
     """
 
     def __init__(
@@ -836,6 +846,7 @@ class Pair:
         deterministic: bool = True,
         observe: bool = True,
         clock_start: float = 1000.0,
+        spin_quantum: Optional[float] = 0.001,
     ) -> None:
         self.seed = seed
         self.clock = Clock(clock_start)
@@ -844,6 +855,7 @@ class Pair:
         self.timer_rng = random.Random("timer-%s" % (seed,))
         self.network = Network(self.net_rng, self.clock, fates, latency)
         self.timer_slack = timer_slack
+        self.spin_quantum = spin_quantum
         self.retry = retry
         self.ticket_store = ticket_store
         self.steps: list[StepRecord] = []
@@ -995,7 +1007,7 @@ class Pair:
         if pump:
             self.pump(self.client)
 
-    def pump(self, ep: Endpoint) -> int:
+    def pump(self, ep: Endpoint, _after_timer: bool = False) -> int:
         """Move ``ep``'s pending datagrams onto the network, drain its events,
         re-arm its timer.  Call after any direct application action.
         Returns the number of datagrams sent."""
@@ -1004,8 +1016,8 @@ class Pair:
         out = ep.datagrams_to_send()
         for data, addr in out:
             self.network.send(data, ep, addr)
-        ep.drain_events()
-        self._arm_timer(ep)
+        n_events = len(ep.drain_events())
+        self._arm_timer(ep, _after_timer and not out and not n_events)
         return len(out)
 
     def pump_all(self) -> None:
@@ -1013,7 +1025,7 @@ class Pair:
         self.pump(self.client)
         self.pump(self.server)
 
-    def _arm_timer(self, ep: Endpoint) -> None:
+    def _arm_timer(self, ep: Endpoint, after_idle_timer: bool = False) -> None:
         t = ep.get_timer()
         if t != ep.timer_at or ep.timer_fire_at is None:
             ep.timer_at = t
@@ -1022,6 +1034,26 @@ class Pair:
             else:
                 slack = self.timer_slack(self.timer_rng) if self.timer_slack else 0.0
                 ep.timer_fire_at = t + max(0.0, slack)
+        if (
+            after_idle_timer
+            and ep.timer_fire_at is not None
+            and ep.timer_fire_at <= self.clock.now
+            and self.spin_quantum
+        ):
+            # The timer just fired, nothing was sent, and the connection asks to
+            # be woken at a time that is not in the future: a real event loop
+            # would now spin (call_at in the past).  Model the spin by letting
+            # time creep forward so other events can break it, and record it.
+            if not ep.spinning:
+                ep.spinning = True
+                self.anomalies.append(
+                    "%.6f %s: timer re-armed in the past (get_timer()=%.6f) after a "
+                    "no-op handle_timer; busy-loop" % (self.clock.now, ep.name, ep.timer_at)
+                )
+            ep.spins += 1
+            ep.timer_fire_at = self.clock.now + self.spin_quantum
+        elif ep.spinning and not after_idle_timer:
+            ep.spinning = False
 
     def next_due(self) -> Optional[tuple[float, int, Optional[Endpoint]]]:
         """``(time, kind, endpoint)`` of the next thing to happen, kind 0 =
@@ -1059,9 +1091,10 @@ class Pair:
             armed = ep.timer_at
             ep.timer_fired.append((armed if armed is not None else t, self.clock.now))
             ep.timer_fire_at = None
+            n_events = len(ep.events)
             ep.handle_timer()
-            sent = self.pump(ep)
-            rec = StepRecord(self.clock.now, "timer", ep.name, None, sent)
+            sent = self.pump(ep, True)
+            rec = StepRecord(self.clock.now, "timer", ep.name, None, sent, len(ep.events) - n_events)
         if self.clock.now == before and rec.kind == "timer" and rec.sent == 0:
             self._stall_count += 1
             if self._stall_count >= 200:
@@ -1303,7 +1336,9 @@ class Pair:
         call itself* (e.g. ``ValueError`` for a write on a finished stream) is
         returned in the result instead of propagating; exceptions from network
         input or timers always follow the endpoint's ``capture_exceptions``.
-        ``settle`` finally runs until idle.  Returns ``[(item, exc_type)]``."""
+        ``settle`` finally runs until idle.  Returns ``[(item, outcome)]`` with
+        outcome ``None`` (done), an exception class name, or ``"skipped"`` (an
+        ``after_seen`` item whose stream never showed up within ``max_time``)."""
         t0 = self.clock.now
         s0 = len(self.steps)
         out: list[tuple[ScriptItem, Optional[str]]] = []
@@ -1316,6 +1351,16 @@ class Pair:
                 dt = t0 + item.t - self.clock.now
                 if dt > 0:
                     self.advance(dt)
+            if item.args.get("after_seen"):
+                ep, sid = self.endpoint(item.side), item.args["stream"]
+
+                def seen(_p: "Pair", ep: Endpoint = ep, sid: int = sid) -> bool:
+                    return any(getattr(e, "stream_id", None) == sid for _, e in ep.events)
+
+                self.run(seen, max_time=max_time)
+                if not seen(self):
+                    out.append((item, "skipped"))
+                    continue
             try:
                 self.apply(item)
                 out.append((item, None))
@@ -1389,7 +1434,8 @@ class ScriptItem:
     ``side``: ``"client"`` / ``"server"``.  ``op`` and ``args``:
 
     ========== =============================================
-    write      stream, data, fin
+    write      stream, data, fin, after_seen (wait until this side has had an
+               event for the stream: answering on a peer-initiated stream)
     reset      stream, code
     stop       stream, code
     ping       uid
@@ -1461,7 +1507,7 @@ def gen_script(rng: random.Random, profile: Union[str, dict] = "mixed") -> Scrip
             return rng.choice([1, 63, 64, 1100, 1199, 1200, 1201, 16383, 16384])
         return rng.randrange(200, max(201, p["max_size"] + 1))
 
-    def sender_plan(side: str, sid: int, t0: float) -> float:
+    def sender_plan(side: str, sid: int, t0: float, answer: bool = False) -> float:
         """writes (+fin/reset) by ``side`` on ``sid`` starting at t0; returns last time"""
         n = rng.randint(*p["writes"])
         t = t0
@@ -1470,12 +1516,16 @@ def gen_script(rng: random.Random, profile: Union[str, dict] = "mixed") -> Scrip
             last = i == n - 1
             data = rng.randbytes(min(size(), p["max_size"]))
             fin = last and not will_reset and rng.random() < 0.85
-            items.append(ScriptItem(side, "write", dict(stream=sid, data=data, fin=fin), t=t))
+            args = dict(stream=sid, data=data, fin=fin)
+            if answer:
+                args["after_seen"] = True
+            items.append(ScriptItem(side, "write", args, t=t))
             t += rng.choice([0.0, 0.0, 0.001, 0.01, 0.05]) * (1 + rng.random())
         if will_reset:
-            items.append(
-                ScriptItem(side, "reset", dict(stream=sid, code=rng.randrange(0, 1 << 20)), t=t)
-            )
+            args = dict(stream=sid, code=rng.randrange(0, 1 << 20))
+            if answer:
+                args["after_seen"] = True
+            items.append(ScriptItem(side, "reset", args, t=t))
         return t
 
     for _ in range(p["streams"]):
@@ -1493,10 +1543,9 @@ def gen_script(rng: random.Random, profile: Union[str, dict] = "mixed") -> Scrip
                     ScriptItem(side, "stop", dict(stream=sid, code=rng.randrange(0, 1 << 16)), t=t0)
                 )
             elif rng.random() < 0.6:
-                # the peer answers once it has (very likely) seen the stream;
-                # writing on a not-yet-seen peer bidi stream is an API error,
-                # so the answer is scheduled late and run_script may record it.
-                sender_plan(other, sid, max(t_end, t0) + span + 1.0)
+                # the peer answers after it has seen the stream (writing on a
+                # not-yet-seen peer-initiated stream is an API error)
+                sender_plan(other, sid, max(t_end, t0) + rng.uniform(0.0, span), answer=True)
     for _ in range(p["extras"]):
         side = rng.choice(["client", "server"])
         t = rng.uniform(0.0, span)
@@ -1514,7 +1563,10 @@ def gen_script(rng: random.Random, profile: Union[str, dict] = "mixed") -> Scrip
         else:
             items.append(ScriptItem(side, "ping", dict(uid=rng.randrange(1 << 16)), t=t))
     if p["rebind"] and rng.random() < 0.5:
-        items.append(ScriptItem("client", "rebind", {}, t=rng.uniform(0.0, span)))
+        # a NAT rebinding only becomes visible when the client next sends
+        t = rng.uniform(0.0, span)
+        items.append(ScriptItem("client", "rebind", {}, t=t))
+        items.append(ScriptItem("client", "ping", dict(uid=rng.randrange(1 << 16)), t=t))
     items.sort(key=lambda it: it.t if it.t is not None else 0.0)  # stable
     if p["close"]:
         last = max([it.t or 0.0 for it in items] + [0.0])
@@ -1529,14 +1581,20 @@ def gen_script(rng: random.Random, profile: Union[str, dict] = "mixed") -> Scrip
     return items
 
 
-def script_truth(script: Script) -> dict[tuple[str, int], dict]:
+def script_truth(
+    script: Script,
+    outcomes: Optional[list[tuple[ScriptItem, Optional[str]]]] = None,
+) -> dict[tuple[str, int], dict]:
     """Ground truth of a script: ``{(sender_side, stream_id): {...}}``.
 
     Each value has ``data`` (all bytes written, in order), ``fin`` (a FIN was
     written), ``reset`` (error code of a ``reset`` or ``None``), and
     ``stopped`` (error code if the *receiving* peer's script stops the stream,
-    else ``None``).  Use with :func:`sim.observe.stream_deliveries` of the
-    *other* endpoint."""
+    else ``None``).  Pass the return value of :meth:`Pair.run_script` as
+    ``outcomes`` to leave out actions that were skipped or refused by the API.
+    Use with :func:`sim.observe.stream_deliveries` of the *other* endpoint."""
+    if outcomes is not None:
+        script = [it for it, outcome in outcomes if outcome is None]
     truth: dict[tuple[str, int], dict] = {}
     for it in script:
         if it.op in ("write", "reset"):
